@@ -349,6 +349,24 @@ def run_harness(exe, lines, timeout=900):
     return out, crashes
 
 
+def run_harness_parallel(exe, lines, jobs=None):
+    """contiguous chunks of the case list on several harness processes"""
+    import concurrent.futures
+    jobs = jobs or max(1, min(12, (vv.NPROC or 4) - 2))
+    if len(lines) < 200 or jobs == 1:
+        return run_harness(exe, lines)
+    size = (len(lines) + jobs - 1) // jobs
+    chunks = [(k, lines[k:k + size]) for k in range(0, len(lines), size)]
+    out = [None] * len(lines)
+    crashes = {}
+    with concurrent.futures.ThreadPoolExecutor(len(chunks)) as ex:
+        for (k, ch), (o, c) in zip(chunks, ex.map(lambda kc: run_harness(exe, kc[1]), chunks)):
+            out[k:k + len(ch)] = o
+            for i, e in c.items():
+                crashes[k + i] = e
+    return out, crashes
+
+
 def shrink(exe, T, S, ops, key):
     """drop ops while the same failure key persists"""
     cur = list(ops)
@@ -447,7 +465,7 @@ def run(ck):
     lines = [show_case(T, S, ops) for T, S, ops in cases]
     if not os.path.exists(harness):      # the shared build cache may have been collected meanwhile
         harness = vv.build_harness("h_smallvec", extra=["-O0", "-g1"])
-    hout, crashes = run_harness(harness, lines)
+    hout, crashes = run_harness_parallel(harness, lines)
     rc, mout, merr = vv.run_lines(model, "\n".join(lines) + "\n")
     if rc != 0 or len(mout) != len(cases):
         raise vv.BuildError("model driver failed: rc=%s %s" % (rc, merr[:500]))
